@@ -334,7 +334,7 @@ def extract(bound):
 
 
 def run(prop, cfg, tier, seed):
-    bound = 4 if tier == 'thorough' else 3
+    bound = 5 if tier == 'thorough' else 3
     t0 = time.time()
     verdicts = []
     try:
@@ -380,4 +380,4 @@ def run(prop, cfg, tier, seed):
                          'CPython ast.parse is the semantics of the generated function strings; np.mean/np.median/np.std/sorted are the library functions they name',
                          'Model.memoize(name, t) of a leaf element returns that element\'s value (C08)'],
                 assumptions=['element values are reals (z3); floating-point rounding of the generated expression versus numpy\'s summation order is not modelled',
-                             'bounded: operand shapes up to %d per axis (quick 3, thorough 4); %d cases in %.1fs' % (bound, len(cases), time.time() - t0)])
+                             'bounded: operand shapes up to %d per axis (quick 3, thorough 5); %d cases in %.1fs' % (bound, len(cases), time.time() - t0)])
